@@ -26,6 +26,8 @@ TOp == /\ Ev.e = "Op"
             [] Ev.op = "MulXaiM1"  -> MulXaiM1(Ev.x) /\ Same /\ Ev.off = 0 /\ UNCHANGED <<nfft, ndec>>
             [] Ev.op = "Decrypt"   -> Decrypt(Ev.ms) /\ Same /\ Ev.off = 0 /\ Ev.dec = SeqOf(DecOf(Ev.ms)) /\ Ev.stray = 0 /\ ndec' = ndec + 1 /\ UNCHANGED nfft
             [] Ev.op = "FFTRound"  -> FFTRound /\ Same /\ Ev.off <= FFTTol /\ nfft' = nfft + 1 /\ UNCHANGED ndec     \* (the harness prints the sample that came back and keeps the exact one)
+            [] Ev.op = "FFTAddH"   -> FFTAddH /\ RowsIn(Ev.rows) = FFTAddHOf(g) /\ Ev.off <= FFTTol /\ nfft' = nfft + 1 /\ UNCHANGED ndec
+            [] Ev.op = "FFTOnlyH"  -> FFTOnlyH /\ RowsIn(Ev.rows) = FFTAddHOf(GZero) /\ Ev.off <= FFTTol /\ nfft' = nfft + 1 /\ UNCHANGED ndec
             [] OTHER -> FALSE
 TNext == Consume /\ (TProg \/ TOp)
 TSpec == TInit /\ [][TNext]_tvars
